@@ -409,3 +409,69 @@ def truncated_copy(path, k, tag=''):
         with open(out, 'wb') as f:
             f.write(data)
     return out
+
+
+def removable_table_blocks(path):
+    """Per FULL result set of the file: [(label, byte_start, byte_end)] of the printed blocks of the tables after the
+    first one - what has to be deleted to get a listing in which that result set does not print that table.
+    Independent line scan.  TOUGH2 family: a block runs from the line after the previous '@@@@@...' separator to the
+    block's own closing separator and contains a 'KCYC = .. ITER = ..' line (a block without closing separator, as at
+    the end of some TOUGH2_MP result sets, is not offered).  AUTOUGH2: from the table's opening keyword line to its
+    closing keyword line and the blank line after it.  TOUGH+ is not handled (returns no blocks)."""
+    sc = scan_of(path)
+    with open(path, 'rb') as f:
+        data = f.read()
+    offs, lines, pos = [], [], 0
+    for raw in data.splitlines(True):
+        offs.append(pos)
+        lines.append(raw.decode('latin-1').rstrip('\r\n'))
+        pos += len(raw)
+    offs.append(pos)
+    bounds = [s.line for s in sc.sets] + [len(lines)]
+    out = []
+    for j, s in enumerate(sc.sets):
+        if s.kind != 'full':
+            continue
+        a, b = bounds[j], bounds[j + 1]
+        blocks = []
+        if sc.family == 'TOUGH2':
+            if any(l.startswith('=====') or l.startswith(' =====') for l in lines[a:b]):
+                out.append([])            # TOUGH+
+                continue
+            seps = [i for i in range(a, b) if lines[i][1:11] == '@' * 10]
+            for p0, p1 in zip(seps[:-1], seps[1:]):
+                body = lines[p0 + 1:p1]
+                k = [l for l in body if 'KCYC =' in l and 'ITER =' in l]
+                heads = [l.split()[:3] for l in body if l.split()[:1] and l.split()[0].upper() in
+                         ('ELEM.', 'ELEM', 'ELEM1', 'ELEMENT') and any(x.upper() in ('INDEX', 'IND.') for x in l.split()[1:3])]
+                if k and heads:
+                    blocks.append((' '.join(heads[0]), offs[p0 + 1], offs[p1 + 1]))
+        else:
+            kw = [(i, navmodel._KW.match(lines[i]).group(1)) for i in range(a, b) if navmodel._KW.match(lines[i])]
+            i = 0
+            while i + 2 < len(kw) + 0 and i + 2 <= len(kw) - 1:
+                (i0, k0), (i1, k1), (i2, k2) = kw[i], kw[i + 1], kw[i + 2]
+                if k0 == k1 == k2:
+                    if k0 != 'EEEEE':
+                        end = i2 + 1
+                        if end < len(lines) and not lines[end].strip():
+                            end += 1
+                        blocks.append((k0, offs[i0], offs[end]))
+                    i += 3
+                else:
+                    i += 1
+        out.append(blocks)
+    return out
+
+
+def copy_without_block(path, block, tag):
+    """Copy of 'path' (in the worker's scratch directory, same base name) with the bytes [start, end) removed."""
+    label, start, end = block
+    d = os.path.join(core.scratch(), 'cut', '%016x' % core.h64((path, tag, start, end)))
+    os.makedirs(d, exist_ok=True)
+    out = os.path.join(d, os.path.basename(path))
+    with open(path, 'rb') as f:
+        data = f.read()
+    with open(out, 'wb') as f:
+        f.write(data[:start] + data[end:])
+    return out
